@@ -156,7 +156,54 @@ def wrap(g, kind, x, tagn=1):
         return g.node("map", [x, one])
     if kind == "mapv":
         return g.node("map", [one, x])
+    if kind == "pairr":
+        return g.node("pair", [one, x]) if g.nodes[x][0] not in ("list", "lx") else g.node("list", [one, x])
+    if kind == "list3m":
+        return g.node("list", [one, x, one])
+    if kind == "list5l":
+        return g.node("list", [one, one, one, one, x])
+    if kind == "list2x":
+        return g.node("list", [x, x])
     return g.node(kind, [x])
+
+
+WRAPS = ["list", "list3m", "list5l", "list2x", "vec", "mvec", "pair", "pairr", "struct", "box", "set", "map", "mapv"]
+
+
+def gen_cross_kind_cases():
+    """equal? is not discriminant-respecting: a mutable and an immutable vector with equal elements are
+    equal.  Such pairs (and near misses) as ELEMENTS of every container kind, at depth 1 and 2, in every
+    position of a list, compared both ways, hashed, and used as keys / members (seeded defect m1: an
+    "optimistic" discriminant check on list elements)."""
+    cases = []
+
+    def pair(g, i, one, two, three):
+        if i == 0:
+            return g.node("vec", [one, two]), g.node("mvec", [one, two])
+        if i == 1:
+            return g.node("vec", []), g.node("mvec", [])
+        if i == 2:
+            return g.node("vec", [g.node("vec", [one])]), g.node("mvec", [g.node("mvec", [one])])
+        if i == 3:
+            return (g.node("vec", [g.node("list", [g.node("mvec", [two])])]),
+                    g.node("vec", [g.node("list", [g.node("vec", [two])])]))
+        if i == 4:
+            return g.node("vec", [one, two]), g.node("mvec", [one, three])       # near miss
+        return g.node("mvec", [one, two]), g.node("mvec", [one, two])
+    for i in range(6):
+        g = G()
+        one, two, three = g.leaf(("int", "1")), g.leaf(("int", "2")), g.leaf(("int", "3"))
+        a, b = pair(g, i, one, two, three)
+        ask(g, a, b)
+        ask(g, b, a)
+        for k1 in WRAPS:
+            wa, wb = wrap(g, k1, a), wrap(g, k1, b)
+            ask(g, wa, wb)
+            ask(g, wb, wa)
+            for k2 in WRAPS:
+                ask(g, wrap(g, k2, wa), wrap(g, k2, wb))
+        cases.append(g)
+    return cases
 
 
 def gen_leaf_cases():
@@ -665,7 +712,18 @@ def gen_coll_seq(rng, reg, length):
         ops.append("cm new " + " ".join(str(x) for x in seq(2 * rng.randint(0, 4), 0, 4)))
         for _ in range(length):
             r = rng.random()
-            if r < 0.3:
+            if r < 0.12:
+                own = rng.choice(["", "_let", "_n", "_c"])
+                ops.append("cm %s%s " % (rng.choice(["union", "unionr"]), own)
+                           + " ".join(str(x) for x in seq(2 * rng.randint(0, 3), 0, 5)))
+            elif r < 0.16:
+                l, rr = seq(2 * rng.randint(0, 3), 0, 5), seq(2 * rng.randint(0, 3), 0, 5)
+                ops.append("cm uniontt%s %d " % (rng.choice(["", "_let", "_n", "_ln", "_nl"]), len(l)) + " ".join(str(x) for x in l + rr))
+            elif r < 0.20:
+                ops.append("cm insert2 %d %d %d %d" % (rng.randint(0, 5), rng.randint(0, 99), rng.randint(0, 5), rng.randint(0, 99)))
+            elif r < 0.23:
+                ops.append("cm insrem %d %d %d" % (rng.randint(0, 5), rng.randint(0, 99), rng.randint(0, 5)))
+            elif r < 0.3:
                 ops.append("cm insert %d %d" % (rng.randint(0, 5), rng.randint(0, 99)))
             elif r < 0.45:
                 ops.append("cm remove %d" % rng.randint(0, 5))
@@ -681,7 +739,10 @@ def gen_coll_seq(rng, reg, length):
         ops.append("cs new " + " ".join(str(x) for x in seq(None, 0, 4)))
         for _ in range(length):
             r = rng.random()
-            if r < 0.4:
+            if r < 0.25:
+                ops.append("cs %s%s " % (rng.choice(["union", "unionr", "inter", "interr", "diff", "diffr"]), rng.choice(["", "_let", "_n"]))
+                           + " ".join(str(x) for x in seq(None, 0, 5)))
+            elif r < 0.4:
                 ops.append("cs insert %d" % rng.randint(0, 5))
             elif r < 0.7:
                 ops.append("cs contains %d" % rng.randint(0, 5))
@@ -705,6 +766,10 @@ def gen_coll_seq(rng, reg, length):
                 ops.append("cl take %d" % ival())
             elif r < 0.7:
                 ops.append("cl tail %d" % ival())
+            elif r < 0.72:
+                ops.append(rng.choice(["cl appendl " + " ".join(str(x) for x in seq()),
+                                       "cl append2 %d %d" % (rng.randint(0, 9), rng.randint(0, 9)),
+                                       "cl cons2 %d %d" % (rng.randint(0, 9), rng.randint(0, 9))]))
             elif r < 0.8:
                 ops.append("cl append " + " ".join(str(x) for x in seq()))
             elif r < 0.85:
@@ -765,6 +830,50 @@ def steel_of(op):
 
     def upd(expr):
         return "(begin (set! %s %s) %s)" % (reg, expr, state), "state"
+    base, _, own = o.partition("_")
+    if reg == "cm" and base in ("union", "unionr", "uniontt"):
+        # the same union under every ownership pattern of its arguments: `hm_union` has one branch per
+        # (left uniquely owned?, right uniquely owned?)
+        if base == "uniontt":
+            n = int(a[0])
+            m1, m2 = "(hash %s)" % " ".join(a[1:1 + n]), "(hash %s)" % " ".join(a[1 + n:])
+            expr = {"": "(hash-union %s %s)" % (m1, m2),
+                    "let": "(let ((ta %s) (tb %s)) (hash-union ta tb))" % (m1, m2),
+                    "n": "(begin (set! cm2 %s) (set! cm3 %s) (hash-union cm2 cm3))" % (m1, m2),
+                    "ln": "(begin (set! cm2 %s) (hash-union cm2 %s))" % (m1, m2),
+                    "nl": "(begin (set! cm3 %s) (hash-union %s cm3))" % (m2, m1)}[own]
+            return upd(expr)
+        lit = "(hash %s)" % A
+        other = {"": lit, "let": "t", "n": "cm2", "c": lit}[own]
+        mine = "(hash-union cm (hash))" if own == "c" else "cm"       # `c`: a uniquely owned copy of cm
+        call = "(hash-union %s %s)" % ((mine, other) if base == "union" else (other, mine))
+        if own == "let":
+            call = "(let ((t %s)) %s)" % (lit, call)
+        if own == "n":
+            call = "(begin (set! cm2 %s) %s)" % (lit, call)
+        return upd(call)
+    if reg == "cs" and base in ("union", "unionr", "inter", "interr", "diff", "diffr"):
+        stem = {"unionr": "union", "interr": "inter", "diffr": "diff"}.get(base, base)
+        fn = {"union": "hashset-union", "inter": "hashset-intersection", "diff": "hashset-difference"}[stem]
+        lit = "(hashset %s)" % A
+        other = {"": lit, "let": "t", "n": "cs2"}[own]
+        left_is_mine = base in ("union", "inter", "diff")
+        call = "(%s %s %s)" % ((fn, "cs", other) if left_is_mine else (fn, other, "cs"))
+        if own == "let":
+            call = "(let ((t %s)) %s)" % (lit, call)
+        if own == "n":
+            call = "(begin (set! cs2 %s) %s)" % (lit, call)
+        return upd(call)
+    if reg == "cm" and base == "insert2":
+        return upd("(hash-insert (hash-insert cm %s %s) %s %s)" % tuple(a))
+    if reg == "cm" and base == "insrem":
+        return upd("(hash-remove (hash-insert cm %s %s) %s)" % tuple(a))
+    if reg == "cl" and base == "appendl":
+        return upd("(append (list %s) cl)" % A)
+    if reg == "cl" and base == "append2":
+        return upd("(append (append cl (list %s)) (list %s))" % tuple(a))
+    if reg == "cl" and base == "cons2":
+        return upd("(cons %s (cons %s cl))" % tuple(a))
     if reg == "cm":
         return {"new": upd("(hash %s)" % A), "insert": upd("(hash-insert cm %s)" % A), "remove": upd("(hash-remove cm %s)" % A),
                 "ref": ("(hash-ref cm %s)" % A, "res"), "tryget": ("(hash-try-get cm %s)" % A, "opt"),
@@ -820,7 +929,8 @@ def canon_real(reg, how, out):
     return v
 
 
-PRELUDE = ["coll (define cm (hash))", "coll (define cs (hashset))", "coll (define cl (list))", "coll (define cv (vector))",
+PRELUDE = ["coll (define cm2 (hash))", "coll (define cm3 (hash))", "coll (define cs2 (hashset))",
+           "coll (define cm (hash))", "coll (define cs (hashset))", "coll (define cl (list))", "coll (define cv (vector))",
            "coll (define cb (bytes))", "coll (define ct \"\")"]
 
 
@@ -865,6 +975,23 @@ def run_coll(ctx, rng, nseq, length, stats):
                     "ct ref 4", "ct sub 1 3", "ct new 104 233 955 128512", "ct sub 3 1", "ct sub 0 5", "ct sub 4 4", "ct sub -1 2"])
     seqs.insert(0, ["cm new", "cm len", "cm ref 1", "cm tryget 1", "cm contains 1", "cm remove 1", "cm new 1 2 1 3", "cm len",
                     "cm ref 1", "cm insert 1 9", "cm ref 1", "cm len", "cm remove 1", "cm len", "cm ref 1"])
+    # hash-union with a DUPLICATE key and different values under every ownership pattern of the two arguments
+    # (seeded defect m3: one of the four branches of hm_union had the operands swapped): the left value wins
+    u = []
+    for own in ["", "_let", "_n", "_c"]:
+        u += ["cm new 1 10 2 20", "cm union%s 1 100 3 30" % own, "cm ref 1", "cm len",
+              "cm new 1 10 2 20", "cm unionr%s 1 100 3 30" % own, "cm ref 1", "cm len"]
+    for own in ["", "_let", "_n", "_ln", "_nl"]:
+        u += ["cm uniontt%s 4 1 10 2 20 1 100 3 30" % own, "cm ref 1", "cm ref 3", "cm len"]
+    u += ["cm new", "cm union 1 1", "cm unionr 1 2", "cm union", "cm unionr", "cm uniontt 0", "cm insert2 1 1 1 2", "cm insrem 1 5 1"]
+    seqs.insert(0, u)
+    v = []
+    for own in ["", "_let", "_n"]:
+        for opn in ["union", "unionr", "inter", "interr", "diff", "diffr"]:
+            v += ["cs new 1 2 3", "cs %s%s 2 3 4 4" % (opn, own), "cs len"]
+    v += ["cs new", "cs union", "cs inter 1", "cs diff 1", "cs diffr"]
+    seqs.insert(0, v)
+    seqs.insert(0, ["cl new", "cl appendl", "cl appendl 1 2", "cl append2 3 4", "cl cons2 0 0", "cl last", "cl first", "cl len", "cl appendl 9 9 9 9 9", "cl ref 5"])
     seqs.insert(0, ["cs new", "cs len", "cs contains 1", "cs subset", "cs subset 1", "cs new 1 1 2", "cs len", "cs insert 1",
                     "cs len", "cs insert 3", "cs len", "cs subset 1 2 3 4", "cs subset 1 2"])
     chunk = 50
@@ -884,11 +1011,19 @@ def run_coll(ctx, rng, nseq, length, stats):
                 bad = bad or (op, src, real, raw, model)
         if bad and len(ctx.violations) < 8:
             op, src, real, raw, model = bad
-            body = "# collection operation sequence (model ops; the Steel source is in the comments)\n"
+            # replay = the operations on the same register since it was last rebuilt, up to the failing one
+            reg = op.split()[0]
+            hist = []
             for row in res["rows"]:
-                body += "%s\n#   %s\n#   real: %s   model: %s\n" % (row[0], row[1], row[3], row[4])
+                if row[0].split()[0] == reg:
+                    if row[0].split()[1] == "new" or row[0].split()[1].startswith("uniontt"):
+                        hist = []
+                    hist.append(row)
                 if row[0] == op and row[3] == raw and row[4] == model:
                     break
+            body = "# collection operation sequence (model ops; the Steel source is in the comments)\n"
+            for row in hist:
+                body += "%s\n#   %s\n#   real: %s   model: %s\n" % (row[0], row[1], row[3], row[4])
             ctx.violation("C11-coll-%d.txt" % bi, body + "# the primitive's answer `%s` differs from the finite map/set/sequence model `%s`\n" % (raw, model))
 
 
@@ -931,6 +1066,7 @@ def run(ctx):
     quick = ctx.quick()
     run_graph_cases(ctx, gen_leaf_cases(), "leaf", stats, batch_size=20)
     run_graph_cases(ctx, gen_key_cases(), "keys", stats, batch_size=1)
+    run_graph_cases(ctx, gen_cross_kind_cases(), "xkind", stats, batch_size=1)
     dag = gen_dag_cases(rng, quick)
     run_graph_cases(ctx, dag, "dag", stats, batch_size=4)
     run_graph_cases(ctx, gen_shared_node_cases(rng, quick), "lx", stats, batch_size=1)
@@ -963,7 +1099,7 @@ def run(ctx):
     cov.update({
         "evaluations": stats["evaluations"] + stats["coll_ops"] + stats["corpus_cases"],
         "distinct_nontrivial": stats["eq_shared"],
-        "rule": "graph cases = every leaf kind x leaf kind at top level and inside every container kind; "
+        "rule": "graph cases = every leaf kind x leaf kind at top level and inside every container kind; cross-kind equal values (mutable vs immutable vector) as elements of every container kind at depth 1 and 2; "
                 "DAG family: outer container x inner container x every assignment of {shared object, second shared object, "
                 "fresh equal copy, fresh different value} to 2..3 slots on both sides (both query orders); collections as "
                 "keys/members; shared-node lists: append/cons/cdr/list-tail/take/drop/reverse/map/range over common base lists of "
